@@ -791,6 +791,36 @@ def hist_case(function, sets, order):
     return None
 
 
+def reuse_decode_case(function, sets, order):
+    """The frames of `order` decoded one after the other into ONE message object of the function's class (a receiver that
+    keeps a scratch object): afterwards it holds the last frame's parameters and encodes to the last frame.
+    -> None | (signature, detail)"""
+    try:
+        m = B.bvl_pdu_types[function]()
+        for k in order:
+            x = B.BVLPDU()
+            x.decode(PDU(bytes(R.encode(function, sets[k]))))
+            m.decode(x)
+        got = params_of(function, m)
+        y = B.BVLPDU()
+        m.encode(y)
+        out = PDU()
+        y.encode(out)
+        octets = bytes(out.pduData)
+    except Exception as err:
+        return ("reuse:%s:raises-%s" % (NAMES[function], type(err).__name__), {"order": list(order), "error": repr(err)})
+    last = sets[order[-1]]
+    d = diff_params(last, got)
+    if d is not None:
+        return ("reuse:%s:object-decoded-into-again-keeps-something-of-the-frame-before:%s" % (NAMES[function], d[0]),
+                {"decoded_in_order": [show_p(sets[j]) for j in order], "holds_now": show_p(got)})
+    want = R.encode(function, last)
+    if octets != want:
+        return ("reuse:%s:re-encoding-after-second-decode-differs" % NAMES[function],
+                {"decoded_in_order": [show_p(sets[j]) for j in order], "emitted": short(octets), "want": short(want)})
+    return None
+
+
 def _set_params(function, m, p):
     """give an existing message object other parameters (an application that keeps one object and sends it repeatedly)"""
     if function == R.RESULT:
@@ -850,6 +880,13 @@ def shard_hist(item, deadline):
     sets_by_fn = hist_param_sets()
     for function in item:
         sets = sets_by_fn[function]
+        for n in (2, 3):
+            for order in it.product(range(len(sets)), repeat=n):
+                bad = reuse_decode_case(function, sets, order)
+                acc.case(("reuse", function, order))
+                acc.outcome("reuse:%s" % ("clean" if bad is None else "stale"))
+                if bad is not None:
+                    acc.fail(bad[0], bad[1], {"kind": "reuse", "function": function, "order": list(order)})
         for n in (2, 3):
             for order in it.product(range(len(sets)), repeat=n):
                 bad = send_hist_case(function, sets, order)
@@ -961,6 +998,9 @@ def samples(acc, cases, tc, seed):
 
 
 def replay(case):
+    if case.get("kind") == "reuse":
+        f = reuse_decode_case(int(case["function"]), hist_param_sets()[int(case["function"])], tuple(case["order"]))
+        return f is None, "frames %r of %s decoded into one message object -> %r" % (case["order"], NAMES[int(case["function"])], f or "holds the last frame")
     if case.get("kind") == "send-hist":
         f = send_hist_case(int(case["function"]), hist_param_sets()[int(case["function"])], tuple(case["order"]))
         return f is None, "one %s object sent through one codec with parameter sets %r in turn -> %r" % (
